@@ -51,6 +51,10 @@ func c02Jobs(tier string) []string {
 	}
 	add(base+",close=a-shut,aw=600,rcvbuf=200,b=1", 4)
 	add(base+",close=none,read=stall,aw=600,rcvbuf=200,b=1", 4)
+	// shutdown while the peer's window is closed: the write fills the window exactly, is
+	// acknowledged with window 0, and the FIN must still leave (a FIN needs no window)
+	add(base+",close=a-shut,read=stall,aw=200,rcvbuf=200,b=1", 2)
+	add(base+",close=both-shut,read=stall,aw=200,bw=50,rcvbuf=200,b=1", 2)
 	add(base+",close=close-unread,aw=72,b=1", 1)
 	add(base+",close=a-close,aw=72,b=1", 1)
 	if tier == "thorough" {
